@@ -16,6 +16,12 @@ DRIVER = "drv_c05"
 HARNESS = {"bin": "pvh_c05", "features": "default"}
 EXTRA_HARNESS = [lc.FULL_HARNESS]
 THEOREMS = [
+    "PV.Lexer.step_ok",
+    "PV.Lexer.step_err",
+    "PV.C05.lex_terminates",
+    "PV.C05.tokens_in_bounds",
+    "PV.C05.tokens_on_boundaries",
+    "PV.C05.tokens_ordered_disjoint",
 ]
 TRUSTED = [
     "Lean 4.33.0 kernel; axioms limited to propext, Classical.choice, Quot.sound",
@@ -224,6 +230,8 @@ def check_stream(text, start, full, toks):
                 return f"INDENT at {s} is not at the start of a logical line (after {prev_sig})"
             if not line_prefix_blank(s):
                 return f"INDENT at {s} is not at the start of its line"
+            if s > 0 and b[s - 1:s] in (b" ", b"\t"):
+                return f"INDENT at {s} does not cover the whole indentation of its line"
             bal += 1
             prev_sig = kind
             blank = False
